@@ -5,9 +5,14 @@
   FULL STATEMENT (not proved as a whole):
     Acyclic G → costs defined → ∃ k, after k calls of `next` the generator has stopped and its output
     is a permutation of the language of G.
-  Proved: NOTHING OUTSIDE (C02_Beap_sound, every history) and EACH PROGRAM AT MOST ONCE (C02_Beap_nodup, every
-  prefix of every run from the fresh generator, positive rule costs).  Not proved: every program of the
-  language is yielded, and termination on finite grammars.
+  Proved: NOTHING OUTSIDE (C02_Beap_sound, every history), EACH PROGRAM AT MOST ONCE (C02_Beap_nodup, every
+  prefix of every run from the fresh generator, positive rule costs), EVERY PROGRAM (C02_Beap_complete: when the
+  generator has stopped every priced derivation of the start symbol all of whose sub-programs the filter accepts
+  has been yielded; C02_Beap_full: without a filter the output of a stopped generator is a permutation of the
+  language), and TERMINATION in the partial form C02_Beap_terminates_partial (|language| + 1 calls of `next`
+  reach the end whenever the model run returns: explicit decidable hypothesis), C02_Beap_fuel_mono (a run that
+  returns with some fuel returns the same result with every larger fuel) and their sum C02_Beap_total_partial.
+  Not proved: that a sufficient fuel exists (termination of one `next` call; no exception).
 
   Proved here, for every grammar with distinct dict keys (`RowsNodup`), every cost table, every
   filter, every fuel and every HISTORY of `next` / `merge_program` calls (`Reach`):
@@ -33,12 +38,18 @@
       non-zero combination of the box is produced from a combination of smaller weight;
     * C02_Beap_frontier_model — the model's successor loop pushes exactly these combinations.
   COST SOUNDNESS ("stored under its true cost index") is in the C03 part file (C03_Beap_bank_cost).
-  Completeness / termination on finite grammars: compared on every generated case (exact
-  correspondence of yielded sequence and tables, independent language oracle), not proved.
+  COMPLETENESS (round 2; proofs in PS/Proofs/Enum/BeapCompl*.lean, see the end of this file): invariants CR (every
+  clean program cheaper than the last cost of S is in the bank entry of its cost), FR (every other clean program
+  is in the last bank entry or has an element of its rule on its producer chain in `_queues[S]`), FrK (the same
+  for a running query, with its pending product); the early-stop branch of `generator()` is dead without merges.
+  Termination of one `next` call: compared on every generated case (exact correspondence of yielded sequence
+  and tables, independent language oracle), not proved.
 -/
 import PS.Proofs.Enum.BeapSoundRun
 import PS.Proofs.Enum.BeapFrontier
 import PS.Proofs.Enum.BeapNodupFinal
+import PS.Proofs.Enum.BeapComplFinal
+import PS.Proofs.Enum.BeapFuel
 namespace PS.C02Beap
 open PS PS.G PS.Beap
 
@@ -267,5 +278,185 @@ theorem C02_Beap_nodup {S : Type} [DecidableEq S] (E : Env S) (hnd : RowsNodup E
 theorem C02_Beap_nodup_demo (fuel k : Nat) (g : Gen Nat) (ys : List Prog) (fin : Bool)
     (h : take demoE fuel k (Gen.new demoG) [] = some (g, ys, fin)) : ys.Nodup :=
   C02_Beap_nodup demoE demo_rowsNodup (stableAfter_of_rec demoE rfl) demo_productive demo_posW fuel k g ys fin h
+
+/-! ### COMPLETENESS, and the generator as a whole on finite grammars (round 2) -/
+
+/-- **COMPLETENESS at the end (positive rule costs)**: when the generator has stopped (`next` raised StopIteration:
+    `take` returns the flag `true`), EVERY program of the start symbol all of whose sub-programs are accepted by
+    the filter (`clean`; every priced derivation when no filter is installed) has been yielded.  The early-stop
+    branch of `generator()` (`failed and not _failed_by_empties`, beap_search.py:130-131) is never taken on a
+    generator on which no program was merged: the generator only stops when `_cost_lists[start]` is exhausted
+    and `_queues[start]` is empty. -/
+theorem C02_Beap_complete {S : Type} [DecidableEq S] (E : Env S) (hnd : RowsNodup E.G) (hst : StableAfter E) (hprod : Productive E)
+    (hpos : PosW E) (fuel k : Nat) (g : Gen S) (ys : List Prog)
+    (h : take E fuel k (Gen.new E.G) [] = some (g, ys, true))
+    (q : Prog) (x : Rat) (hcl : clean E.filter q = true) (hx : costOf E q E.G.start = some x) : q ∈ ys :=
+  complete_at_stop E hnd hst hprod hpos fuel k (g, ys, true) h rfl q x hcl hx
+
+/-- **the output of a generator that has stopped is a permutation of the language** (no filter): no duplicates
+    (C02_Beap_nodup), only priced derivations of the start symbol, all of them (C02_Beap_complete) -/
+theorem C02_Beap_full {S : Type} [DecidableEq S] (E : Env S) (hf : ∀ t, E.filter t = true) (hnd : RowsNodup E.G) (hst : StableAfter E)
+    (hprod : Productive E) (hpos : PosW E) (fuel k : Nat) (g : Gen S) (ys : List Prog)
+    (h : take E fuel k (Gen.new E.G) [] = some (g, ys, true))
+    (lang : List Prog) (hl : lang.Nodup) (hmem : ∀ q, q ∈ lang ↔ ∃ x, costOf E q E.G.start = some x) : ys.Perm lang := by
+  refine (List.perm_ext_iff_of_nodup (C02_Beap_nodup E hnd hst hprod hpos fuel k g ys true h) hl).mpr (fun q => ⟨fun hq => ?_, fun hq => ?_⟩)
+  · exact (hmem q).mpr (yields_priced E hnd hst hprod hpos fuel k _ h q hq)
+  · obtain ⟨x, hx⟩ := (hmem q).mp hq
+    exact C02_Beap_complete E hnd hst hprod hpos fuel k g ys h q x (clean_accept_all E.filter hf q) hx
+
+/-- **TERMINATION on a finite language, partial form**: if the priced derivations of the start symbol all lie in a
+    list `lang`, then `|lang| + 1` calls of `next` reach the end of the generator — whenever the model run returns
+    at all.  Explicit hypothesis (decidable per case, checked by the harness on every generated case: the driver
+    run returns and reports `finished`): `take E fuel (|lang|+1) … = some …`, i.e. the fuel suffices and no
+    statement of beap_search.py raises.  NOT proved: that such a fuel exists (no unbounded sequence of empty cost
+    levels inside one `next`). -/
+theorem C02_Beap_terminates_partial {S : Type} [DecidableEq S] (E : Env S) (hnd : RowsNodup E.G) (hst : StableAfter E)
+    (hprod : Productive E) (hpos : PosW E) (lang : List Prog)
+    (hmem : ∀ q x, costOf E q E.G.start = some x → q ∈ lang)
+    (fuel : Nat) (g : Gen S) (ys : List Prog) (fin : Bool)
+    (h : take E fuel (lang.length + 1) (Gen.new E.G) [] = some (g, ys, fin)) : fin = true := by
+  cases fin with
+  | true => rfl
+  | false =>
+    exfalso
+    have hlen := take_length E fuel _ _ _ _ h rfl
+    have hnd' := C02_Beap_nodup E hnd hst hprod hpos fuel _ g ys false h
+    have hsub : ys ⊆ lang := fun q hq => by
+      obtain ⟨x, hx⟩ := yields_priced E hnd hst hprod hpos fuel _ _ h q hq
+      exact hmem q x hx
+    have := hnd'.length_le_of_subset hsub
+    simp only [List.length_nil, Nat.zero_add] at hlen
+    have hlen : ys.length = lang.length + 1 := hlen
+    omega
+
+/-! non-vacuity on a finite grammar (`is_recursive()` false, no re-evaluation): `X -> m(Y,Y) | a`, `Y -> a | b` -/
+def tX : NT Nat Unit := (Ty.base "int", (0, ()))
+def tY : NT Nat Unit := (Ty.base "int", (1, ()))
+def tinyG : TT Nat Unit :=
+  { start := tX,
+    rules := [ (tX, [(sy 0, ([], ())), (sy 1, ([(Ty.base "int", 1), (Ty.base "int", 1)], ()))]),
+               (tY, [(sy 0, ([], ())), (sy 2, ([], ()))]) ] }
+def tinyE : Env Nat :=
+  { G := tinyG, W := [ (tX, [(sy 0, 1), (sy 1, 1)]), (tY, [(sy 0, 1), (sy 2, 2)]) ],
+    filter := fun _ => true, recursive := false }
+def tinyRank (nt : NT Nat Unit) : Nat := if nt = tX then 1 else 0
+
+theorem tiny_rowsNodup : RowsNodup tinyG := by
+  intro nt rs h
+  simp only [tinyG, AList.lookup] at h
+  repeat (first | (split at h; (cases h; decide)) | (simp at h))
+
+theorem tiny_ranked : Ranked tinyE tinyRank := by
+  intro nt P rl hr a ha
+  unfold TT.rule? at hr
+  split at hr
+  · cases hr
+  · next rs hrs =>
+    have h1 := AList.lookup_some_mem hrs
+    have h2 := AList.lookup_some_mem hr
+    have h : tinyE.G.rules.all (fun r => r.2.all (fun rule => rule.2.1.all (fun a => decide (tinyRank (ntOf a) < tinyRank r.1)))) = true := by
+      decide
+    rw [List.all_eq_true] at h
+    have h3 := h _ h1
+    rw [List.all_eq_true] at h3
+    have h4 := h3 _ h2
+    rw [List.all_eq_true] at h4
+    simpa using h4 a ha
+
+theorem tiny_productive : Productive tinyE := by
+  intro nt h
+  by_cases h1 : nt = tX
+  · subst h1; exact ⟨.node (sy 0) [], 1, by decide +kernel⟩
+  · by_cases h2 : nt = tY
+    · subst h2; exact ⟨.node (sy 0) [], 1, by decide +kernel⟩
+    · simp [tinyE, tinyG, AList.lookup, Ne.symm h1, Ne.symm h2] at h
+
+theorem tiny_posW : PosW tinyE := posW_of_check tinyE (by decide +kernel)
+theorem tiny_stable : StableAfter tinyE := stableAfter_of_ranked tinyRank tinyE tiny_rowsNodup tiny_ranked
+
+/-- the run on the finite grammar: five programs (costs 1, 3, 4, 4, 5), then the generator stops -/
+theorem tiny_run : (take tinyE 100 10 (Gen.new tinyG) []).map (fun r => (r.2.1, r.2.2)) =
+    some ([.node (sy 0) [], .node (sy 1) [.node (sy 0) [], .node (sy 0) []], .node (sy 1) [.node (sy 0) [], .node (sy 2) []],
+           .node (sy 1) [.node (sy 2) [], .node (sy 0) []], .node (sy 1) [.node (sy 2) [], .node (sy 2) []]], true) := by
+  decide +kernel
+
+/-- non-vacuity of C02_Beap_complete / C02_Beap_full: the hypotheses hold on the finite grammar, the generator does
+    stop (tiny_run), and e.g. `m(b, b)` (cost 5) is a priced derivation — so it is in the output -/
+example : ∃ g ys, take tinyE 100 10 (Gen.new tinyG) [] = some (g, ys, true) ∧
+    Tree.node (sy 1) [.node (sy 2) [], .node (sy 2) []] ∈ ys := by
+  have hrun := tiny_run
+  cases hp : take tinyE 100 10 (Gen.new tinyG) [] with
+  | none => simp [hp] at hrun
+  | some r =>
+    obtain ⟨g, ys, fin⟩ := r
+    simp only [hp, Option.map_some, Option.some.injEq, Prod.mk.injEq] at hrun
+    obtain ⟨_, hfin⟩ := hrun
+    subst hfin
+    exact ⟨g, ys, rfl, C02_Beap_complete tinyE tiny_rowsNodup tiny_stable tiny_productive tiny_posW 100 10 g ys hp _ 5
+      (clean_accept_all _ (fun _ => rfl) _) (by decide +kernel)⟩
+
+/-- non-vacuity of C02_Beap_full: on the finite grammar the generator stops and its output is a permutation of any
+    duplicate-free enumeration of the priced derivations of the start symbol -/
+example (lang : List Prog) (hl : lang.Nodup) (hmem : ∀ q, q ∈ lang ↔ ∃ x, costOf tinyE q tinyG.start = some x) :
+    ∃ g ys, take tinyE 100 10 (Gen.new tinyG) [] = some (g, ys, true) ∧ ys.Perm lang := by
+  have hrun := tiny_run
+  cases hp : take tinyE 100 10 (Gen.new tinyG) [] with
+  | none => simp [hp] at hrun
+  | some r =>
+    obtain ⟨g, ys, fin⟩ := r
+    simp only [hp, Option.map_some, Option.some.injEq, Prod.mk.injEq] at hrun
+    obtain ⟨_, hfin⟩ := hrun
+    subst hfin
+    exact ⟨g, ys, rfl, C02_Beap_full tinyE (fun _ => rfl) tiny_rowsNodup tiny_stable tiny_productive tiny_posW 100 10 g ys hp lang hl hmem⟩
+
+/-- C02_Beap_terminates_partial on the finite grammar, for every fuel for which the run returns -/
+example (lang : List Prog) (hmem : ∀ q x, costOf tinyE q tinyG.start = some x → q ∈ lang) (fuel : Nat) (g : Gen Nat) (ys : List Prog)
+    (fin : Bool) (h : take tinyE fuel (lang.length + 1) (Gen.new tinyG) [] = some (g, ys, fin)) : fin = true :=
+  C02_Beap_terminates_partial tinyE tiny_rowsNodup tiny_stable tiny_productive tiny_posW lang hmem fuel g ys fin h
+
+/-- non-vacuity of C02_Beap_terminates_partial: with the five-element language list, six calls of `next` reach
+    the end (and the hypothesis "the run returns" holds for fuel 100) -/
+example : (take tinyE 100 6 (Gen.new tinyG) []).map (fun r => r.2.2) = some true := by decide +kernel
+
+/-! ### the fuel is a proof artifact -/
+
+/-- **the result of a run does not depend on the fuel**: when `take k` returns with fuel `fuel` it returns the same
+    generator, the same programs and the same flag with every larger fuel (every grammar, cost table, filter, every
+    generator state — also after merges) -/
+theorem C02_Beap_fuel_mono {S : Type} [DecidableEq S] (E : Env S) (k : Nat) (g : Gen S) (acc : List Prog) (r : Gen S × List Prog × Bool)
+    (fuel fuel' : Nat) (hle : fuel ≤ fuel') (h : take E fuel k g acc = some r) : take E fuel' k g acc = some r :=
+  take_fuel_mono E k g acc r fuel fuel' hle h
+
+/-- **the whole statement of C02 for beap search, relative to "the run returns for some fuel"** (no filter): if the
+    priced derivations of the start symbol are exactly the members of the duplicate-free list `lang` and the model run
+    of `|lang| + 1` calls of `next` returns for SOME fuel, then for EVERY larger fuel it returns the same result: the
+    generator has stopped and its output is a permutation of `lang` -/
+theorem C02_Beap_total_partial {S : Type} [DecidableEq S] (E : Env S) (hf : ∀ t, E.filter t = true) (hnd : RowsNodup E.G)
+    (hst : StableAfter E) (hprod : Productive E) (hpos : PosW E) (lang : List Prog) (hl : lang.Nodup)
+    (hmem : ∀ q, q ∈ lang ↔ ∃ x, costOf E q E.G.start = some x)
+    (hret : ∃ fuel, (take E fuel (lang.length + 1) (Gen.new E.G) []).isSome = true) :
+    ∃ fuel0 g ys, ys.Perm lang ∧ ∀ fuel, fuel0 ≤ fuel → take E fuel (lang.length + 1) (Gen.new E.G) [] = some (g, ys, true) := by
+  obtain ⟨fuel0, h0⟩ := hret
+  cases hr : take E fuel0 (lang.length + 1) (Gen.new E.G) [] with
+  | none => rw [hr] at h0; cases h0
+  | some r =>
+    obtain ⟨g, ys, fin⟩ := r
+    have hfin : fin = true := C02_Beap_terminates_partial E hnd hst hprod hpos lang (fun q x hx => (hmem q).mpr ⟨x, hx⟩) fuel0 g ys fin hr
+    subst hfin
+    exact ⟨fuel0, g, ys, C02_Beap_full E hf hnd hst hprod hpos fuel0 _ g ys hr lang hl hmem,
+      fun fuel hle => C02_Beap_fuel_mono E _ _ _ _ fuel0 fuel hle hr⟩
+
+/-- non-vacuity: on the finite grammar the run returns for fuel 100 (tiny_run), so for every larger fuel; and for any
+    duplicate-free enumeration of the language the conclusion of C02_Beap_total_partial holds -/
+example (fuel : Nat) (h : 100 ≤ fuel) : (take tinyE fuel 10 (Gen.new tinyG) []).map (fun r => r.2.2) = some true := by
+  have hrun : (take tinyE 100 10 (Gen.new tinyG) []).map (fun r => r.2.2) = some true := by decide +kernel
+  cases hp : take tinyE 100 10 (Gen.new tinyG) [] with
+  | none => simp [hp] at hrun
+  | some r => rw [C02_Beap_fuel_mono tinyE 10 _ _ r 100 fuel h hp]; rw [hp] at hrun; exact hrun
+
+example (lang : List Prog) (hl : lang.Nodup) (hmem : ∀ q, q ∈ lang ↔ ∃ x, costOf tinyE q tinyG.start = some x)
+    (hret : ∃ fuel, (take tinyE fuel (lang.length + 1) (Gen.new tinyG) []).isSome = true) :
+    ∃ fuel0 g ys, ys.Perm lang ∧ ∀ fuel, fuel0 ≤ fuel → take tinyE fuel (lang.length + 1) (Gen.new tinyG) [] = some (g, ys, true) :=
+  C02_Beap_total_partial tinyE (fun _ => rfl) tiny_rowsNodup tiny_stable tiny_productive tiny_posW lang hl hmem hret
 
 end PS.C02Beap
